@@ -20,9 +20,10 @@
 //	ih    GenesisDoc.initial_height / app_state.initial_height
 //	grm   app_state.gas_replay_mode          pc   number of past_chain_ids ("old0", "old1")
 //	val   number of genesis validators (one ed25519 key)
-//	B     `-` | entries `a<i>:<coins>[*<count>]` joined by `,`; coins `-` | `<amt><denom>+...` (denoms atom<ugnot<zed,
-//	      ascending).  `*count` expands to count consecutive addresses.  An implicit first entry funds the
-//	      signer F of every transaction (account number 0).
+//	B     `-` | entries `a<i>:<coins>[^c|^d][*<count>]` joined by `,`; coins `-` | `<amt><denom>+...` (denoms
+//	      atom<ugnot<zed, ascending).  `^c` / `^d`: the whole amount vests continuously / with a cliff.
+//	      `*count` expands to count consecutive addresses.  An implicit first entry funds the signer F of
+//	      every transaction (account number 0).
 //	T     `-` | txs joined by `,`:  add.p<j> | inc.p<j> | fail.p<j> | v3ok | v3bad   followed by metadata fields
 //	      @m (empty metadata) @t<ts> @h<height> @c<k> (chain id old<k>) @F (failed on source chain)
 //	      @s<a<i>|F>:<accnum>:<seq> (signer info, repeatable)
@@ -94,6 +95,7 @@ type coin struct {
 type balEnt struct {
 	addr, count int
 	coins       []coin
+	vest        byte // 0, 'c' (continuous vesting), 'd' (delayed vesting)
 }
 type sinfo struct {
 	who      int // -1 = F
@@ -198,6 +200,10 @@ func parseBal(s string) ([]balEnt, bool) {
 			}
 			e = e[:i]
 		}
+		var vest byte
+		if strings.HasSuffix(e, "^c") || strings.HasSuffix(e, "^d") {
+			vest, e = e[len(e)-1], e[:len(e)-2]
+		}
 		i := strings.IndexByte(e, ':')
 		if i < 0 {
 			return nil, false
@@ -207,14 +213,14 @@ func parseBal(s string) ([]balEnt, bool) {
 			return nil, false
 		}
 		cs, ok := parseCoins(e[i+1:])
-		if !ok {
+		if !ok || (vest != 0 && len(cs) == 0) {
 			return nil, false
 		}
 		total += int(cnt)
 		if total > maxBalance {
 			return nil, false
 		}
-		out = append(out, balEnt{a, int(cnt), cs})
+		out = append(out, balEnt{a, int(cnt), cs, vest})
 	}
 	return out, true
 }
@@ -433,7 +439,14 @@ func (s *spec) state() gnoland.GnoGenesisState {
 	gs.Balances = append(gs.Balances, gnoland.Balance{Address: fAddr, Amount: std.Coins{{Denom: "ugnot", Amount: 1 << 50}}})
 	for _, b := range s.bal {
 		for k := 0; k < b.count; k++ {
-			gs.Balances = append(gs.Balances, gnoland.Balance{Address: addrOf(b.addr + k), Amount: toCoins(b.coins)})
+			bal := gnoland.Balance{Address: addrOf(b.addr + k), Amount: toCoins(b.coins)}
+			if b.vest != 0 {
+				bal.Vesting = &std.VestingSchedule{OriginalVesting: toCoins(b.coins), StartTime: t0.Unix() + 100, EndTime: t0.Unix() + 100000}
+				if b.vest == 'd' {
+					bal.Vesting.Type = std.VestingDelayed
+				}
+			}
+			gs.Balances = append(gs.Balances, bal)
 		}
 	}
 	for i := range s.txs {
@@ -736,14 +749,45 @@ func coinsStr(app *sdk.BaseApp, addr crypto.Address) string {
 	return strings.Join(parts, "+")
 }
 
+// findField: the first string field `name` anywhere inside a decoded JSON value
+// (the account is a GnoAccount or a vesting account wrapping a BaseAccount).
+func findField(v any, name string) (string, bool) {
+	switch x := v.(type) {
+	case map[string]any:
+		if f, ok := x[name]; ok {
+			if s, ok := f.(string); ok {
+				return s, true
+			}
+		}
+		keys := make([]string, 0, len(x))
+		for k := range x {
+			keys = append(keys, k)
+		}
+		sort.Strings(keys)
+		for _, k := range keys {
+			if s, ok := findField(x[k], name); ok {
+				return s, true
+			}
+		}
+	}
+	return "", false
+}
+
 func accountOf(app *sdk.BaseApp, addr crypto.Address) (num, seq uint64, ok bool) {
 	bz, qok := query(app, "auth/accounts/"+addr.String())
 	if !qok || string(bz) == "null" {
 		return 0, 0, false
 	}
-	var acc gnoland.GnoAccount
-	amino.MustUnmarshalJSON(bz, &acc)
-	return acc.GetAccountNumber(), acc.GetSequence(), true
+	var v any
+	if err := json.Unmarshal(bz, &v); err != nil {
+		panic("c53 harness: account query: " + err.Error())
+	}
+	ns, ok1 := findField(v, "account_number")
+	ss, ok2 := findField(v, "sequence")
+	if !ok1 || !ok2 {
+		panic("c53 harness: account query without number/sequence: " + string(bz))
+	}
+	return kit.Atou64(ns), kit.Atou64(ss), true
 }
 
 func (s *spec) dumpAddrs() []int {
@@ -770,12 +814,6 @@ func (s *spec) dumpAddrs() []int {
 
 func runOnce(s *spec, d *bft.GenesisDoc) (o *obs) {
 	o = &obs{}
-	defer func() {
-		if r := recover(); r != nil {
-			msg := fmt.Sprint(r)
-			o.outcome, o.detail = "panic:"+classifyPanic(msg), msg
-		}
-	}()
 	opts := gnoland.TestAppOptions(memdb.NewMemDB())
 	opts.PruneStrategy = stypes.PruneEverythingStrategy
 	opts.GenesisTxResultHandler = gnoland.NoopGenesisTxResultHandler
@@ -791,10 +829,26 @@ func runOnce(s *spec, d *bft.GenesisDoc) (o *obs) {
 		vals[i] = bft.NewValidator(v.PubKey, v.Power)
 	}
 	cp := d.ConsensusParams
-	resp := app.InitChain(abci.RequestInitChain{
-		Time: d.GenesisTime, ChainID: d.ChainID, ConsensusParams: &cp,
-		Validators: bft.NewValidatorSet(vals).ABCIValidatorUpdates(), AppState: d.AppState, InitialHeight: d.InitialHeight,
-	})
+	var resp abci.ResponseInitChain
+	panicked := func() (msg string) {
+		defer func() {
+			if r := recover(); r != nil {
+				msg = "panic: " + fmt.Sprint(r)
+			}
+		}()
+		resp = app.InitChain(abci.RequestInitChain{
+			Time: d.GenesisTime, ChainID: d.ChainID, ConsensusParams: &cp,
+			Validators: bft.NewValidatorSet(vals).ABCIValidatorUpdates(), AppState: d.AppState, InitialHeight: d.InitialHeight,
+		})
+		return ""
+	}()
+	if panicked != "" { // the node would not boot
+		o.outcome, o.detail = "panic:"+classifyPanic(panicked), panicked
+		if os.Getenv("VERIF_TRACE") != "" {
+			fmt.Fprintln(os.Stderr, "c53: InitChain", panicked)
+		}
+		return o
+	}
 	if resp.Error != nil {
 		o.outcome, o.detail = "refuse:"+classifyRefusal(resp.Error.Error()), resp.Error.Error()
 		return o
